@@ -12,6 +12,7 @@ PROPERTY = {
     "kani": [
         Harness("c19_schedule_3", "C19.schedule.le3", "BOUNDED", "all schedules of <= 3 steps", bound="3 steps", functions=[F + "merge_channel", F + "Sender::modify", F + "Sender::drop", F + "Receiver::recv"]),
         Harness("c19_schedule_5", "C19.schedule.le5", "BOUNDED", "all schedules of <= 5 steps", bound="5 steps", tier="thorough", timeout=3000, functions=[F + "Receiver::recv", F + "Sender::modify"]),
+        Harness("c19_schedule_7", "C19.schedule.le7", "BOUNDED", "all schedules of <= 7 steps", bound="7 steps", tier="thorough", timeout=3000, functions=[F + "Receiver::recv", F + "Sender::modify"]),
         Harness("c19_modify_after_receiver_drop", "C19.sender_learns_receiver_gone", "PROVED-C", "modify returns Err(SendError) once the receiver is dropped", functions=[F + "Sender::modify", F + "Receiver::drop"]),
         Harness("c19_canary_value_received_twice", "C19.canary", "BOUNDED", "a false claim must be refuted", carries=False, canary=True),
     ],
